@@ -1118,7 +1118,7 @@ def lincurve(x, inmin, inmax, outmin, outmax, curve=-4, clip='minmax'):
     a = (outmax - outmin) / (1.0 - grow)
     b = outmin + a
     scaled = (x - inmin) / (inmax - inmin)
-    return b - a * math.pow(grow, scaled, math.e)
+    return b - a * math.pow(grow, scaled)
 
 @scbuiltin.narop
 def curvelin(x, inmin, inmax, outmin, outmax, curve=-4, clip='minmax'):
